@@ -376,6 +376,12 @@ func (p *Protocol[EK]) Verify(statement *Statement, commitment *Commitment, chal
 			if !okw1i || !okw2i || !okr1i || !okr2i {
 				return proofs.ErrVerificationFailed.WithMessage("verification failed")
 			}
+			// The plaintexts must live in Z_N of this key: a plaintext carrying another
+			// (smaller) modulus encrypts to the same ciphertext under a public key, so
+			// without this check the embedded modulus is a malleable part of the proof.
+			if w1i == nil || w2i == nil || !p.encryptionKey.PlaintextGroup().Contains(w1i.Value()) || !p.encryptionKey.PlaintextGroup().Contains(w2i.Value()) {
+				return proofs.ErrVerificationFailed.WithMessage("verification failed")
+			}
 
 			if (!isInRange(p.lowBound, p.highBound, w1i) || !isInRange(num.N().Zero(), p.lowBound, w2i)) &&
 				(!isInRange(p.lowBound, p.highBound, w2i) || !isInRange(num.N().Zero(), p.lowBound, w1i)) {
@@ -395,6 +401,9 @@ func (p *Protocol[EK]) Verify(statement *Statement, commitment *Commitment, chal
 			ri, okri := response.Rj[i]
 			ji, okji := response.J[i]
 			if !okwi || !okri || !okji {
+				return proofs.ErrVerificationFailed.WithMessage("verification failed")
+			}
+			if wi == nil || !p.encryptionKey.PlaintextGroup().Contains(wi.Value()) {
 				return proofs.ErrVerificationFailed.WithMessage("verification failed")
 			}
 
